@@ -27,6 +27,10 @@ fn main() {
     props::c16::probe(&args[2]);
     return;
   }
+  if args[1] == "c08probe" {
+    props::c08::probe(&args[2], &args[3]);
+    return;
+  }
   let prop = args[1].clone();
   let mut cfg = RunCfg {
     seed: 1,
@@ -84,6 +88,7 @@ fn main() {
     "c20" => props::c20::run(&cfg),
     "c07" => props::c07::run(&cfg),
     "c16" => props::c16::run(&cfg),
+    "c08" => props::c08::run(&cfg),
     _ => {
       eprintln!("unknown property {}", prop);
       std::process::exit(2);
